@@ -123,6 +123,9 @@ void build_alphabets() {
   C2.push_back(call2("h", VY, VX, VX, VY));
   C2.push_back(call2("h", VX, VY, VY, VX));
   C2.push_back(call2("h", VV, VI, VI, VV));
+  // a formal (v) named like the actual of a *later* position, the other formal (i) not an actual at all: (y,x):=h(x,v)
+  C2.push_back(call2("h", VY, VX, VX, VV));
+  if (th) { C2.push_back(call2("h", VY, VX, VI, VX)); C2.push_back(call2("h", VY, VV, VY, VV)); }
   if (th) { C2.push_back(call("f", VX, VX)); C2.push_back(call("g", VY, VX)); C2.push_back(call("g", VZ, VZ));
             C2.push_back(call2("h", VI, VV, VV, VI)); C2.push_back(call2("h", VZ, VW, VX, VY)); C2.push_back(call2("h", VX, VZ, VZ, VX)); }
   AS = {skip(), assertion(cst({{1, VY}}, -1, C_LEQ), 1)};
@@ -195,10 +198,13 @@ struct ProgId {
   int fshape, s1, s2, s3;       // f
   int g;                        // -1: no g
   int h;                        // -1: no h
+  int multi = 0;                // k>0: main is four calls y:=f(x) with x:=a,b,c,d from {-1,0,1} (k-1 = base-3 code of abcd)
   std::string spec() const {
     char buf[128];
     snprintf(buf, sizeof buf, "%d.%d.%d.%d.%d.%d:%d.%d.%d.%d:%d:%d", m1, c1, m2, c2, as, loop, fshape, s1, s2, s3, g, h);
-    return buf;
+    std::string r = buf;
+    if (multi > 0) r += ":M" + std::to_string(multi);
+    return r;
   }
 };
 
@@ -213,11 +219,22 @@ IProg make_prog(const ProgId &id, bool &uses_g, bool &uses_h) {
     p.fname = "main";
     p.blocks.resize(4);
     auto put = [&](int b, const Stmt &s) { if (!is_skip(s)) p.blocks[b].stmts.push_back(s); };
-    put(0, M1[id.m1]);
-    put(1, C1[id.c1]);
-    put(2, M2[id.m2]);
-    put(3, C2[id.c2]);
-    put(3, AS[id.as]);
+    if (id.multi > 0) {
+      // repeated calls of the same function with different (disjoint) contexts: x:=a; y:=f(x); x:=b; y:=f(x); x:=c; y:=f(x); x:=d; y:=f(x)
+      int code = id.multi - 1;
+      for (int b = 0; b < 4; b++) {
+        put(b, assign(VX, lin({}, code % 3 - 1)));
+        put(b, call("f", VY, VX));
+        code /= 3;
+      }
+      put(3, AS[id.as]);
+    } else {
+      put(0, M1[id.m1]);
+      put(1, C1[id.c1]);
+      put(2, M2[id.m2]);
+      put(3, C2[id.c2]);
+      put(3, AS[id.as]);
+    }
     p.blocks[0].succ = {1};
     p.blocks[1].succ = {2};
     p.blocks[2].succ = {3};
@@ -763,8 +780,10 @@ void run_program(const ProgId &id, const std::string &only_dom) {
 }
 
 bool parse_spec(const std::string &s, ProgId &id) {
-  return sscanf(s.c_str(), "%d.%d.%d.%d.%d.%d:%d.%d.%d.%d:%d:%d", &id.m1, &id.c1, &id.m2, &id.c2, &id.as, &id.loop, &id.fshape, &id.s1, &id.s2, &id.s3,
-                &id.g, &id.h) == 12;
+  id.multi = 0;
+  int n = sscanf(s.c_str(), "%d.%d.%d.%d.%d.%d:%d.%d.%d.%d:%d:%d:M%d", &id.m1, &id.c1, &id.m2, &id.c2, &id.as, &id.loop, &id.fshape, &id.s1, &id.s2, &id.s3,
+                 &id.g, &id.h, &id.multi);
+  return n == 12 || n == 13;
 }
 
 } // namespace
@@ -832,6 +851,31 @@ int main(int argc, char **argv) {
                         ProgId id = {m1, c1, m2, c2, as, loop, fshape, s1, s2, s3, g, h};
                         run_program(id, "");
                       }
+
+  // the multi-call family: main calls the two-armed f four times with constants from {-1,0,1} (every 4-tuple), so that a bound on the
+  // calling contexts is exceeded by pairwise disjoint contexts; f's statements range over the call-free part of the alphabet
+  // (thorough: plus the recursive call and y:=y+1)
+  if (PROP == "C09" || PROP == "C02" || th) {
+    std::vector<int> fs_plain;
+    for (int i = 0; i < nf; i++)
+      if (FS[i].kind != S_CALL || (th && FS[i].name == "f")) fs_plain.push_back(i);
+    for (int s1 : fs_plain)
+      for (int s2 : fs_plain)
+        for (int s3 : fs_plain)
+          for (int multi = 1; multi <= 81 && !cut; multi++)
+            for (int as = (PROP == "C02" ? 1 : 0); as < (PROP == "C10" || PROP == "C05" ? 1 : (th ? (int)AS.size() : 2)); as++) {
+              if (!th && !(s3 == 0 || s3 == 2)) continue;
+              if (!vp::mine(caseno++)) continue;
+              if ((++mine_count & 0x3) == 0 && vp::past_deadline()) {
+                vp::incomplete("cut in the multi-call family at s1=" + std::to_string(s1));
+                cut = true;
+                break;
+              }
+              ProgId id = {0, 0, 0, 0, as, 0, 1, s1, s2, s3, -1, -1};
+              id.multi = multi;
+              run_program(id, "");
+            }
+  }
 
   vp::stat("programs", n_programs);
   vp::stat("recursive_programs", n_rec);
